@@ -1397,7 +1397,17 @@ impl Prop for C13 {
                     w.restart(&snap);
                     let again = Snap::take(&w.tr);
                     if snap != again {
-                        panic!("harness: snapshot does not survive restore: {:?}", snap.diff(&again).1);
+                        // the restored tracker checks later proofs against another set of watched
+                        // outpoints (or remembers another tip / header window) than the one that
+                        // was persisted: blocks would be accepted or refused on other grounds than
+                        // before the restart
+                        let (names, d) = snap.diff(&again);
+                        let comp: String = names.first().map(|c| c.to_string()).unwrap_or_default();
+                        ctx.report(st, Violation::new(
+                            format!("C13:restart-changed-tracker-state:{}", comp),
+                            format!("a tracker restored from its persisted entry and listener entries differs from the persisted one in {:?}: later unspent-output proofs are checked against a different set of watched outpoints", d),
+                        ))?;
+                        break 'ops;
                     }
                     st.class("restart");
                     w.shape.push((2, "restart", 1));
